@@ -37,7 +37,24 @@ def count_task_vtables(bd):
         for line in r.stdout.split("\n"):
             if "vtable for " in line:
                 names.add(line.split("vtable for ", 1)[1].strip())
+    count_task_vtables.names = names
     return len(names)
+
+
+def unreached_breakdown(reached):
+    """classify the Task vtables of the build that no run dispatched to the pool"""
+    import re
+    norm = lambda x: re.sub(r"\s+", "", x)  # noqa: E731
+    got = set(norm(t) for t in reached)
+    miss = [n for n in getattr(count_task_vtables, "names", ()) if norm(n) not in got]
+    no_class = [n for n in miss if re.search(r"Vec[234]<unsigned char>", n)]
+    rest = [n for n in miss if n not in no_class]
+    all_scalar = [n for n in rest if "SimpleNonArrayWrapper" in n and "FixedArray" not in n.split("WritableDirectAccess", 1)[-1]]
+    other = [n for n in rest if n not in all_scalar]
+    return {"total": len(miss),
+            "arrays_of_Vec_unsigned_char (no Python class exists for them)": len(no_class),
+            "all_scalar_argument_instantiations (length 1: always run inline)": len(all_scalar),
+            "other": len(other), "other_examples": sorted(other)[:8]}
 
 
 def single(exe, env, doc, trace_file=None):
@@ -305,6 +322,7 @@ def main(tier, base_seed):
         "catalogue_entries_dispatched": len(entries_all),
         "task_types_dispatched": len(tasks_all),
         "task_vtables_in_build": vt,
+        "task_vtables_never_dispatched": unreached_breakdown(tasks_all),
         "hand_written_tasks_reached": hand,
         "faults_fired": {k[6:]: v for k, v in sorted(agg_all.items()) if k.startswith("fault.")},
         "probes_hit": {k[6:]: v for k, v in sorted(agg_all.items()) if k.startswith("probe.")},
